@@ -1,8 +1,18 @@
 #!/bin/bash
-# re-runs every stored seeded change against its own property's check (plus extra checks given in seeded/EXTRA.tsv)
+# re-runs every stored seeded change: per-property ones (seeded/C<nn>-<i>) against their own property's check plus the extra checks in
+# seeded/EXTRA.tsv; any-property ones (seeded/X*, Y*, Z*) against the property named in their meta.json plus its "also" list.
+# usage: tools/reeval_seeded.sh [glob]      e.g. tools/reeval_seeded.sh 'seeded/[XYZ]*'
 cd /verif
-for d in seeded/C*-*; do
+for d in ${1:-seeded/*-*}; do
+  [ -d "$d" ] || continue
   b=$(basename $d); pid=${b%-*}; i=${b#*-}
-  extra=$(grep -P "^$b\t" seeded/EXTRA.tsv 2>/dev/null | cut -f2)
-  tools/eval_seeded.sh stored $pid $i $pid $extra | cut -c1-260
+  case $b in
+    C*) checks="$pid $(grep -P "^$b\t" seeded/EXTRA.tsv 2>/dev/null | cut -f2)";;
+    *)  checks=$(/venv/bin/python -c "
+import json,sys
+m=json.load(open('$d/meta.json'))
+c=[m.get('property')]+[x for x in (m.get('also') or []) if x not in (m.get('property'),)]
+print(' '.join(x for x in c if x))");;
+  esac
+  tools/eval_seeded.sh stored $pid $i $checks | cut -c1-260
 done
